@@ -1,0 +1,31 @@
+// Copyright Suneido Software Corp. All rights reserved.
+// Governed by the MIT license found in the LICENSE file.
+
+package query
+
+import (
+	"testing"
+
+	"github.com/apmckinlay/gsuneido/util/assert"
+)
+
+// an update through a project that keeps a key
+// must not change the columns that are not projected
+func TestUpdateThroughProject(t *testing.T) {
+	db := heapDb()
+	defer db.Close()
+	db.adm("create t (k, a, b) key(k)")
+	db.act("insert { k: 1, a: 2, b: 3 } into t")
+	db.act("insert { k: 2, a: 5, b: 6 } into t")
+	db.act("update t project k, a set a = 9")
+	assert.T(t).This(queryAll(db.Database, "t sort k")).
+		Is("a=9 b=3 k=1 | a=9 b=6 k=2")
+	db.act("update t remove a where k is 2 set b = 7")
+	assert.T(t).This(queryAll(db.Database, "t sort k")).
+		Is("a=9 b=3 k=1 | a=9 b=7 k=2")
+	// deleted column, then project
+	db.adm("alter t drop (a)")
+	db.act("update t project k set k = k + 10")
+	assert.T(t).This(queryAll(db.Database, "t sort k")).
+		Is("b=3 k=11 | b=7 k=12")
+}
